@@ -271,6 +271,29 @@ func runKill(c KCase) (res vh.Result) {
 		case <-time.After(20 * time.Second):
 			res.Classes = append(res.Classes, "observation:second-request-hangs")
 		}
+		// the next clean-up of unowned tasks (CleanupTasks without ids, and the start of every environment creation) is what
+		// leftovers fall to: it must ask every survivor to terminate
+		mu.Lock()
+		mu.Unlock()
+		go func() {
+			var o out
+			o.killed, _, o.err = m.Cleanup()
+			ch <- o
+		}()
+		select {
+		case o = <-ch:
+		case <-time.After(20 * time.Second):
+			return fail("kill-request-hangs", "the clean-up after a refused KILL did not return within 20 s")
+		}
+		logf("clean-up -> killed=%v err=%v", o.killed.GetTaskIds(), o.err)
+		mu.Lock()
+		defer mu.Unlock()
+		for id := range refused {
+			if !accepted[id] {
+				return fail("survivor-not-reached-by-cleanup", "the KILL call for task %s was refused earlier; the following clean-up of unowned tasks did not send it a KILL (the task is alive and owned by nobody)", id)
+			}
+		}
+		res.Classes = append(res.Classes, "cleanup-after-refused-kill")
 	}
 	return
 }
